@@ -120,7 +120,7 @@ RoundTrippable(items) ==
             sepOK(c) == ~IsDigit(c) /\ (IsAlnum(c) => numeric)
         IN  \/ (items[i].s1 # -1 /\ sepOK(items[i].s1) /\ (items[i].s2 = -1 \/ sepOK(items[i].s2)))
             \/ (items[i + 1].tok = tz /\ items[i].s1 = -1 /\ items[i].tok \in {tS, tf})     \* the sign of the offset delimits
-  /\ (HasTok(items, tz) => \E i \in 1..Len(items) : items[i].tok = tz /\ (i = Len(items) \/ (i = Len(items) - 1 /\ items[i].s1 = cSpace)))
+  /\ (HasTok(items, tz) => \E i \in 1..Len(items) : items[i].tok = tz /\ (i = Len(items) \/ i = Len(items) - 1))
   /\ (HasTok(items, tT) => items[Len(items)].tok = tT)
 
 (* Parsing with an all-numeric format (%Y %m %d %H %M %S %f %j, each at most once, a non-alphanumeric   *)
@@ -157,6 +157,7 @@ NumMustReject(items, vals) ==
       \/ (HasTok(items, td) /\ HasTok(items, tm) /\ HasTok(items, tY) /\ m \in 1..12 /\ dd > C!DaysInMonth(y, m)
              /\ ~(m = 2 /\ dd \in {30, 31} /\ C!IsLeap(y)))          \* known finding F11 is judged where it is reported
       \/ hh > 24 \/ mi > 59 \/ ss > 60 \/ j > 366
+      \/ (HasTok(items, tj) /\ (j = 0 \/ (HasTok(items, tY) /\ j > C!DaysInYear(y))))   \* day 0, day 366 of a common year
 (* ... followed by the offset token: the numeric items, then %z as the last item.  The sentence ends in        *)
 (* [+-]HH:MM; the part before it is a sentence of the numeric items (the last of which may be followed by a    *)
 (* blank).  <<matched, values, offset hours, offset minutes>>                                                  *)
